@@ -122,7 +122,9 @@ CloseCall ==
   /\ Is("CloseCall")
   /\ st' = IF st.closeCalled THEN st
            ELSE [st EXCEPT !.closeCalled = TRUE,
-                           !.enteredAtClose = {p[1] : p \in st.entered} \ st.exited,
+                           \* (a Close() on a session that is already being disconnected is a no-op)
+                           !.enteredAtClose = IF st.connDown \/ st.anyBad THEN {}
+                                              ELSE {p[1] : p \in st.entered} \ st.exited,
                            !.enteredBeforeClose = {p[1] : p \in st.entered}]
   /\ Step
 
@@ -160,7 +162,7 @@ Quiesce ==
   /\ UNCHANGED st /\ Step
 
 Known == {"Reset", "CallStart", "CallRet", "RemoteReply", "CallDone", "RemoteCall", "ConnDown", "HEnter",
-          "HRecheck", "HExit", "Wire", "CloseCall", "CloseRet", "DiscHook", "Quiesce"}
+          "HRecheck", "HExit", "Wire", "CloseCall", "CloseRet", "DiscHook", "Quiesce", "CallNil"}
 Skip == l <= N /\ Ev.ev \notin Known /\ UNCHANGED st /\ Step
 
 Next == \/ Reset \/ CallStart \/ CallRet \/ RemoteReply \/ CallDone \/ RemoteCall \/ ConnDown \/ HEnter
